@@ -132,9 +132,24 @@ def run_c15(tier, seed):
     with ThreadPoolExecutor(max_workers=shards) as ex:
         for r, o in ex.map(lambda part: run_mode(chk, "life", [], "\n".join(part) + "\n", timeout=1500), parts):
             rows += r
+    # the lifecycle model's prediction (Coq: LifecycleThms.life_model, extracted) for the same sequences
+    rc, mo, _ = vlib.run_model(["life"], "\n".join(lines) + "\n", timeout=900)
+    pred = {}
+    for l in mo.splitlines():
+        sp = l.split(" ", 1)
+        if len(sp) == 2 and sp[0].isdigit():
+            pred[lines[int(sp[0])]] = sp[1]
+    if rc != 0 or len(pred) != len(lines):
+        chk.violation("model-run-failure", "modelrun life failed rc=%s: %s" % (rc, mo[-300:]), dict(stage="model"), True)
     validated, distinct = 0, set()
     for r in rows:
         key = (r["config"], r["seq"])
+        want = pred.get("%s %s" % key)
+        got = ",".join(r["steps"])
+        if want is not None and got != want and not r["problems"]:
+            chk.violation("lifecycle-corr:%s" % r["config"], "correspondence (Lifecycle model vs server), %s port(s), sequence %s: the server showed %s, the model predicts %s" % (
+                r["config"], r["seq"], got, want), dict(row=r, model=want))
+            continue
         if r["problems"]:
             chk.violation("lifecycle:%s:%s" % (r["config"], r["problems"][0].split(":", 1)[-1].strip()[:50]), "server with %s port(s), sequence %s (S start, X stop, R restart, c/t plain/TLS client "
                           "connects, d disconnects): %s" % (r["config"], r["seq"], " ; ".join(r["problems"])[:600]), dict(row=r))
